@@ -1,6 +1,6 @@
 #!/usr/bin/env python3
 """Pipeline: extract unit -> goto-cc -> goto-instrument (DFCC) -> cbmc; parse results; cache by content."""
-import os, sys, re, json, time, hashlib, subprocess, shutil, importlib.util, traceback
+import os, sys, re, json, time, hashlib, subprocess, shutil, signal, threading, importlib.util, traceback
 from concurrent.futures import ThreadPoolExecutor
 
 HERE = os.path.dirname(os.path.abspath(__file__))
@@ -159,14 +159,50 @@ def extract_unit(unit, repo=REPO):
     return dict(functions=infos, fires=rw.fires, workdir=wd)
 
 
-def sh(cmd, timeout, cwd=None, mem_kb=MEM_KB):
+_LIVE = set()      # process groups of running tools, killed when the check itself is terminated
+
+
+def _kill_live(*_):
+    for pid in list(_LIVE):
+        try:
+            os.killpg(pid, signal.SIGKILL)
+        except OSError:
+            pass
+    if _:
+        if not os.environ.get('VERIF_KEEP'):
+            shutil.rmtree(WORK, ignore_errors=True)
+        os._exit(2)
+
+
+atexit.register(_kill_live)
+if threading.current_thread() is threading.main_thread():
+    signal.signal(signal.SIGTERM, _kill_live)
+    signal.signal(signal.SIGINT, _kill_live)
+
+
+def sh(cmd, timeout, cwd=None, mem_kb=MEM_KB, tmpdir=None):
+    """run a tool under a memory limit in its own process group; on timeout the whole group (cbmc and an external SAT
+    solver it started) is killed; temporary files (the CNF handed to an external solver) go to tmpdir, which is removed with the work directory"""
     t0 = time.time()
     pre = 'ulimit -v %d; ' % mem_kb
+    env = dict(os.environ)
+    if tmpdir:
+        env['TMPDIR'] = tmpdir
+    p = subprocess.Popen(['bash', '-c', pre + 'exec "$@"', 'sh'] + cmd, cwd=cwd, stdout=subprocess.PIPE, stderr=subprocess.PIPE, text=True,
+                         start_new_session=True, env=env)
+    _LIVE.add(p.pid)
     try:
-        p = subprocess.run(['bash', '-c', pre + 'exec "$@"', 'sh'] + cmd, cwd=cwd, capture_output=True, text=True, timeout=timeout)
-        return p.returncode, p.stdout, p.stderr, time.time() - t0
-    except subprocess.TimeoutExpired as e:
-        return -9, (e.stdout or b'').decode() if isinstance(e.stdout, bytes) else (e.stdout or ''), 'TIMEOUT after %ds' % timeout, time.time() - t0
+        out, err = p.communicate(timeout=timeout)
+        _LIVE.discard(p.pid)
+        return p.returncode, out, err, time.time() - t0
+    except subprocess.TimeoutExpired:
+        try:
+            os.killpg(p.pid, signal.SIGKILL)
+        except OSError:
+            pass
+        out, err = p.communicate()
+        _LIVE.discard(p.pid)
+        return -9, out or '', 'TIMEOUT after %ds' % timeout, time.time() - t0
 
 
 def tool_versions():
@@ -284,7 +320,7 @@ def run_one(unit, run, exinfo, tier, want_trace=False, nocache=False, only_props
         cmd += ['--property', pid_]
     if not gi:
         cmd += ['--function', entry]
-    rc, out, err, t_cbmc = sh(cmd, tmo)
+    rc, out, err, t_cbmc = sh(cmd, tmo, tmpdir=os.path.dirname(a))
     res['cmd'] = ' '.join(['goto-cc'] + defs + ['--function', entry, 'main.c', '-o', 'a.gb', '&&'] + (['goto-instrument'] + gi + ['a.gb', 'b.gb', '&&'] if gi else []) + ['cbmc', 'b.gb' if gi else 'a.gb'] + flags)
     res['time_instrument_s'] = round(t_gi, 2)
     res['time_cbmc_s'] = round(t_cbmc, 2)
